@@ -229,6 +229,18 @@ func (g *gen) genStatement(typ types.Type, this, that string) error {
 			}
 			thatkey = prepend(that, "key")
 		}
+		if _, isArray := elmType.Underlying().(*types.Array); isArray && !canCopy(elmType) {
+			// an array inside a map is not addressable: fill a local copy and store it
+			thatvalue := prepend(that, "value")
+			p.P("var %s %s", thatvalue, g.TypeString(elmType))
+			if err := g.genField(elmType, thisvalue, thatvalue); err != nil {
+				return err
+			}
+			p.P("%s = %s", wrap(that)+"["+thatkey+"]", thatvalue)
+			p.Out()
+			p.P("}")
+			return nil
+		}
 		if nullable(elmType) {
 			p.P("if %s == nil {", thisvalue)
 			p.In()
@@ -372,8 +384,7 @@ func (g *gen) genField(fieldType types.Type, thisField, thatField string) error 
 		p.P("}")
 		return nil
 	case *types.Array:
-		g.genStatement(fieldType, thisField, thatField)
-		return nil
+		return g.genStatement(fieldType, thisField, thatField)
 	case *types.Slice:
 		p.P("if %s == nil {", thisField) // nil
 		p.In()
